@@ -346,12 +346,23 @@ def run_impl(cases, timeout_ms=4000, race=False):
     return res
 
 
+def _big_stack():
+    """the extracted model recurses on lists and on fuel: give the driver a 2 GiB system stack (native OCaml uses it)"""
+    import resource
+    try:
+        soft, hard = resource.getrlimit(resource.RLIMIT_STACK)
+        want = 2 << 30
+        resource.setrlimit(resource.RLIMIT_STACK, (want if hard == resource.RLIM_INFINITY or hard >= want else hard, hard))
+    except (ValueError, OSError):
+        pass
+
+
 def _run_model_shard(lines, ids):
     out = {}
     todo = list(zip(ids, lines))
     while todo:
         p = subprocess.run([os.path.join(OCAML, "modeldrv")], input="".join(l for _, l in todo),
-                           stdout=subprocess.PIPE, stderr=subprocess.PIPE, text=True,
+                           stdout=subprocess.PIPE, stderr=subprocess.PIPE, text=True, preexec_fn=_big_stack,
                            env=dict(os.environ, OCAMLRUNPARAM="l=4G", VERIF_MODEL_TIMEOUT_S=os.environ.get("VERIF_MODEL_TIMEOUT_S", "3")))
         got = 0
         for line in p.stdout.split("\n"):
